@@ -223,6 +223,11 @@ def run_impl(c, votes=None):
     if k == 'party':
         pm = dict(cfg)
         objs = {cc: _P(cname(cc), None if pm.get(cc) is None else ('party%d' % pm[cc])) for cc, _ in votes}
+        if c.get('blank') in objs and pm.get(c['blank']) is None:
+            # a blank vote option (none of the above): an individual option without a party - an independent for the mapper -
+            # that is an ElectionParty object at the same time
+            import votelib.candidate as _vc
+            objs[c['blank']] = _vc.NoneOfTheAbove('none of the above')
         prof = {objs[cc]: (int(q(w)) if q(w).denominator == 1 else q(w)) for cc, w in votes}
         import votelib.candidate as cd
         out = conv.IndividualToPartyVotes(cd.IndividualToPartyMapper()).convert(prof)
@@ -230,6 +235,12 @@ def run_impl(c, votes=None):
         sub = {'sub_simple': vv.SimpleSubsetter, 'sub_approval': vv.ApprovalSubsetter, 'sub_ranked': vv.RankedSubsetter,
                'sub_score': vv.ScoreSubsetter}[k]()
         out = conv.SubsettedVotes(sub).convert(py_profile(k, votes), [cname(x) for x in cfg])
+        if c.get('nested'):
+            # the same profile in two constituencies, subsetted one level down (depth=1): each constituency must come out as the flat image
+            prof2 = py_profile(k, votes)
+            nested = conv.SubsettedVotes(sub, depth=1).convert({'north': prof2, 'south': dict(prof2)}, [cname(x) for x in cfg])
+            if nested != {'north': out, 'south': out}:
+                raise AssertionError('SubsettedVotes(depth=1) gives %r per constituency, the flat image is %r' % (nested, out))
     else:
         out = converter(c).convert(py_profile(k, votes))
     return {json_key(enc_key(kk)): q(v) for kk, v in out.items()}
@@ -443,8 +454,11 @@ def gen(rng, count):
             cfg = str(rng.randint(0, 5))
         elif kind == 'party':
             cfg = [[cc, rng.choice([1, 2, None])] for cc, _ in votes]
+            _indep = [cc for cc, pp in cfg if pp is None]
+            _blank = rng.choice(_indep) if _indep and rng.random() < 0.4 else None
         elif kind.startswith('sub_'):
             cfg = sorted(rng.sample(range(1, m + 1), rng.randint(0, m)))
+            _nested = rng.random() < 0.35
         if not votes:
             continue
         # the history of the reuse clause: other profiles of the same type over MORE (or fewer) candidates converted first by the same
@@ -461,7 +475,7 @@ def gen(rng, count):
                 hist.append(['conv', ranked_profile(rng, m2, nb2) if t == 'r' else approval_profile(rng, m2, nb2) if t == 'a'
                              else score_profile(rng, m2, nb2)])
         yield dict(unit='convert', kind=kind, cfg=cfg, votes=votes, names=rng.choice(['short', 'long']),
-                   _splits=splits_for(rng, len(votes)), _hist=hist)
+                   _splits=splits_for(rng, len(votes)), _hist=hist, **({'blank': _blank} if kind == 'party' and _blank else {}), **({'nested': True} if kind.startswith('sub_') and _nested else {}))
 
 
 
